@@ -47,29 +47,31 @@ type RecCfg struct {
 }
 
 type Rec struct {
-	T     int       `json:"t"`
-	Ev    string    `json:"ev"`
-	Op    string    `json:"op"`
-	H     string    `json:"h"`
-	Hv    int       `json:"hv"`   // canonical value id of the container the handle names
-	Keep  bool      `json:"keep"` // a handed-back container is kept by the caller
-	I     int       `json:"i"`
-	J     int       `json:"j"`
-	E     ElemSpec  `json:"e"`
-	K     ElemSpec  `json:"k"`
-	Kd    []int     `json:"kd"` // digest vector of the key (maps)
-	Ti    int       `json:"ti"`
-	Res   Res       `json:"res"`
-	Roots []RootObs `json:"roots"`
-	St    StoreObs  `json:"st"`
-	Cfg   RecCfg    `json:"cfg"`
-	Mode  string    `json:"mode"`  // commit kind
-	Calls []CallObs `json:"calls"` // ledger write calls issued by this event, in order
-	Cold  []RootObs `json:"cold"`  // commit events: the roots as reconstructed by a brand-new storage from the registers alone
-	Regs  []RegObs  `json:"regs"`  // commit / run-end events: every register (canonical id, short hash, length)
-	Known bool      `json:"known"` // Load: cold holds the roots observed from the registers at the last successful commit
-	Probe ProbeObs  `json:"probe"` // probe events (iterators, bulk build, copy)
-	Pairs [][2]int  `json:"pairs"` // n.itermut
+	T         int       `json:"t"`
+	Ev        string    `json:"ev"`
+	Op        string    `json:"op"`
+	H         string    `json:"h"`
+	Hv        int       `json:"hv"`   // canonical value id of the container the handle names
+	Keep      bool      `json:"keep"` // a handed-back container is kept by the caller
+	I         int       `json:"i"`
+	J         int       `json:"j"`
+	E         ElemSpec  `json:"e"`
+	K         ElemSpec  `json:"k"`
+	Kd        []int     `json:"kd"` // digest vector of the key (maps)
+	Ti        int       `json:"ti"`
+	Res       Res       `json:"res"`
+	Roots     []RootObs `json:"roots"`
+	St        StoreObs  `json:"st"`
+	Cfg       RecCfg    `json:"cfg"`
+	Mode      string    `json:"mode"`      // commit kind
+	Calls     []CallObs `json:"calls"`     // ledger write calls issued by this event, in order
+	Cold      []RootObs `json:"cold"`      // commit events: the roots as reconstructed by a brand-new storage from the registers alone
+	Regs      []RegObs  `json:"regs"`      // commit / run-end events: every register (canonical id, short hash, length)
+	Known     bool      `json:"known"`     // Load: cold holds the roots observed from the registers at the last successful commit
+	Probe     ProbeObs  `json:"probe"`     // probe events (iterators, bulk build, copy)
+	Pairs     [][2]int  `json:"pairs"`     // n.itermut
+	ColdReach []int     `json:"coldreach"` // commit events: identifiers reached from the roots using the registers alone
+	ColdBad   int       `json:"coldbad"`   // commit events: references that do not resolve / registers that do not decode, in the registers alone
 }
 
 type CallObs struct {
@@ -181,6 +183,7 @@ func (w *World) rec(t int, ev string, op Op, res Res) Rec {
 	if r.Pairs == nil {
 		r.Pairs = [][2]int{}
 	}
+	r.ColdReach = []int{}
 	if w.lastCalls != nil {
 		r.Calls = w.lastCalls
 		w.lastCalls = nil
@@ -189,6 +192,7 @@ func (w *World) rec(t int, ev string, op Op, res Res) Rec {
 		r.Regs = w.RegObs()
 		if res.Class == "ok" {
 			r.Cold = w.ColdObserve()
+			r.ColdReach, r.ColdBad = w.ColdReach, w.ColdBad
 			w.committedRoots, w.commitKnown = r.Cold, true
 		} else {
 			w.commitKnown = false
